@@ -19,7 +19,8 @@ Definition ↔ Rust:
 * `repNode`, `repList`, `repairRoot`           — `commands/repair/snapshots.rs RepairState` driven by `modify_tree`
   (a tree is re-saved only if some node reports a change; file size corrections alone do not)
 * `copyStep`                                   — `commands/copy.rs copy`: needed blobs = reachable and not in the
-  destination index; data copied first, then trees, through packers sharing one *untyped* `Indexer.indexed` set
+  destination index; data copied first, then trees, through packers sharing one typed `Indexer.indexed` set
+  (`copyStepUntyped`: the code before the repair c65a201)
 -/
 namespace Rustic.TreeOps
 
@@ -181,11 +182,19 @@ structure Dest where
   trees : List Nat
   data : List Nat
 
-/-- one `copy` run for the snapshots with the given root trees; `reach` = the trees the streamer yields -/
+/-- one `copy` run for the snapshots with the given root trees; `reach` = the trees the streamer yields.
+Data blobs are copied first, then trees, through packers sharing one `Indexer.indexed` set — keyed by
+(blob type, id) since the repair c65a201, so data ids never make the tree packer skip a tree. -/
 def copyStep (dst : Dest) (roots : List Nat) (reach : List CTree) : Dest :=
   let needTrees := (roots ++ reach.flatMap (·.kids)).filter (fun t => !dst.trees.contains t)
   let needData := (reach.flatMap (·.data)).filter (fun d => !dst.data.contains d)
-  -- data blobs first; afterwards `Indexer.indexed` (ids, no types) holds them and the tree packer skips those ids
+  { trees := dst.trees ++ needTrees, data := dst.data ++ needData }
+
+/-- the same run with the *untyped* `Indexer.indexed` id set of the code before c65a201: after the data blobs
+are copied their ids are in the set and the tree packer skips every tree with such an id -/
+def copyStepUntyped (dst : Dest) (roots : List Nat) (reach : List CTree) : Dest :=
+  let needTrees := (roots ++ reach.flatMap (·.kids)).filter (fun t => !dst.trees.contains t)
+  let needData := (reach.flatMap (·.data)).filter (fun d => !dst.data.contains d)
   let copiedTrees := needTrees.filter (fun t => !needData.contains t)
   { trees := dst.trees ++ copiedTrees, data := dst.data ++ needData }
 
